@@ -142,7 +142,44 @@ def run(cx: Cx):
             cx.violation('R-GUARD', fn.qualname, 'still-registered-test',
                          "no still-registered test dominates System.execute: a system removed by an earlier system of the "
                          "same timestep still runs", where=where, guard=repr(G))
-        # one execute per iteration
+    # every entry of the snapshot gets its turn: the scheduler loop is left early only because the model stopped running
+    from .common import status_atom_kind
+    from sa.terms import f_not
+    sched_lines = {lid for lid, _ in loops}
+    early = None
+    n_exits = 0
+    for p in ps:
+        evs = p.events
+        exits = [e for e in evs if e.kind == 'endloop' and e.node.lineno in sched_lines and e.data.get('how') == 'break']
+        if p.end == 'return' and p.last is not None and p.last.loops and p.last.loops[0] in sched_lines:
+            exits.append(p.last)
+        for en in exits:
+            lid = en.node.lineno if en.kind == 'endloop' else en.loops[0]
+            i = evs.index(en)
+            j = i
+            while j >= 0 and not (evs[j].kind == 'iter' and evs[j].node.lineno == lid):
+                j -= 1
+            depth = len(evs[j].loops) if j >= 0 else 1
+            conds = [x.data['formula'] for x in evs[max(j, 0):i] if x.kind == 'cond' and len(x.loops) <= depth]
+            F = f_and(*conds)
+            n_exits += 1
+            stopped = False
+            for a in atoms_of(F):
+                for lit in (a, f_not(a)):
+                    if status_atom_kind(cx, lit) == 'not-running' and implies(F, lit) is None:
+                        stopped = True
+            if not stopped and early is None:
+                early = (p, en, F)
+    if early is not None:
+        p, en, F = early
+        cx.violation('R-ITER', fn.qualname, 'loop-left-only-when-the-model-stopped',
+                     f"execute_systems leaves the loop over the snapshot early under [{F!r}], which does not establish that the model "
+                     f"stopped running: the systems queued behind that point lose their turn in this timestep", where=cx.where(fn, en.line),
+                     path=p.lines())
+    else:
+        cx.ok('R-ITER', f"the scheduler loop is left early only when the model is no longer running ({n_exits} early exits examined)",
+              where=cx.where(fn), function=fn.qualname)
+    # one execute per iteration
     for p in ps:
         per = {}
         for s in exec_sites(cx, p):
@@ -158,3 +195,7 @@ def run(cx: Cx):
     # 'no system runs more than once' also needs the queue to hold each registered system once: removal must really remove
     from .c01 import check_remove_pairing
     check_remove_pairing(cx)
+    from .common import include_premises
+    include_premises(cx, ['C01'], 'no skips or reruns needs a queue that holds each registered system exactly once')
+
+
